@@ -230,6 +230,23 @@ class LossyCopy:
         return f"LossyCopy({self.n!r})"
 
 
+class RaisingEq:
+    """equal to other RaisingEq objects, raises when it is compared with anything else"""
+
+    def __init__(self, n=0):
+        self.n = n
+
+    def __eq__(self, other):
+        if isinstance(other, RaisingEq):
+            return True
+        raise RuntimeError("eq")
+
+    __hash__ = None
+
+    def __repr__(self):
+        return f"RaisingEq({self.n!r})"
+
+
 class SelfCopy:
     """__deepcopy__ returns the object itself, but the object is not even equal to itself (like float nan)"""
 
@@ -277,7 +294,7 @@ def mutate_in_place(v, depth=0):
 
 
 __all__ = [
-    "IdentityEq", "LossyCopy", "SelfCopy", "Decimal", "nan", "mutate_in_place", "APriv", "PAlias", "DInit", "make_dinit",
+    "IdentityEq", "LossyCopy", "SelfCopy", "RaisingEq", "Decimal", "nan", "mutate_in_place", "APriv", "PAlias", "DInit", "make_dinit",
     "Color", "Level", "Perm", "Outer", "Point", "FPoint", "Box", "APoint", "AFrozen",
     "PModel", "NT", "TNT", "Opaque", "Vec", "defaultdict", "inf", "Hidden", "AHidden", "PHidden", "PExtra", "IVar", "SubPoint", "Point3", "IPerm", "OrderedDict", "Counter",
 ]
